@@ -50,6 +50,19 @@ fn payloads(seed: u64) -> (Vec<u8>, Vec<u8>) {
 pub fn seeds(seed: u64, quick: bool) -> Vec<Seed> {
     let (a, b) = payloads(seed);
     let mut out = vec![];
+    // ASCII text (read_to_string can complete on it, also after most single-bit damage)
+    for (m, name) in [(0u16, "stored"), (8, "deflated")] {
+        let calls = vec![
+            Call::StartFile { name: "t1".into(), opts: FOpts::m(m) },
+            Call::Write(b"plain ascii text, line one\n".to_vec()),
+            Call::StartFile { name: "t2".into(), opts: FOpts::m(m) },
+            Call::Write(b"second entry: plain ascii text as well\n".to_vec()),
+            Call::Finish,
+        ];
+        let (r, bytes) = exec(&calls, &[]);
+        assert!(r.iter().all(|x| x.is_ok()));
+        out.push(seed_from_bytes(&format!("writer-{name}-text"), bytes, None, true, &[]));
+    }
     for (m, name) in [(0u16, "stored"), (8, "deflated"), (12, "bzip2"), (93, "zstd")] {
         let calls = vec![
             Call::StartFile { name: "a".into(), opts: FOpts::m(m) },
@@ -166,7 +179,66 @@ enum Out {
 }
 
 /// Read a reader to EOF with the caller pattern; Some(bytes) only if every read returned Ok.
+/// caller patterns beyond plain read loops: the other ways std::io::Read offers to take everything (a reader may override
+/// any of them, and each override must keep the checksum promise)
+pub const P_READ_TO_STRING: usize = usize::MAX;
+pub const P_PREFIX_THEN_READ_TO_END: usize = usize::MAX - 1;
+pub const P_BYTES: usize = usize::MAX - 2;
+pub const P_IO_COPY: usize = usize::MAX - 3;
+pub fn pattern_name(b: usize) -> String {
+    match b {
+        0 => "read_to_end".into(),
+        P_READ_TO_STRING => "read_to_string".into(),
+        P_PREFIX_THEN_READ_TO_END => "read_exact(1) then read_to_end into the same vector".into(),
+        P_BYTES => "bytes()".into(),
+        P_IO_COPY => "io::copy".into(),
+        n => n.to_string(),
+    }
+}
+
 fn read_pattern<R: Read>(r: &mut R, bufsize: usize, zero_reads: bool, limit: usize) -> Option<Vec<u8>> {
+    match bufsize {
+        P_READ_TO_STRING => {
+            let mut s = String::new();
+            return match r.read_to_string(&mut s) {
+                Ok(_) if s.len() <= limit => Some(s.into_bytes()),
+                _ => None,
+            };
+        }
+        P_PREFIX_THEN_READ_TO_END => {
+            let mut v = vec![0u8; 1];
+            match r.read(&mut v) {
+                Ok(0) => return Some(vec![]),
+                Ok(_) => {}
+                Err(_) => return None,
+            }
+            return match r.read_to_end(&mut v) {
+                Ok(_) if v.len() <= limit => Some(v),
+                _ => None,
+            };
+        }
+        P_BYTES => {
+            let mut v = vec![];
+            for b in r.bytes() {
+                match b {
+                    Ok(b) => v.push(b),
+                    Err(_) => return None,
+                }
+                if v.len() > limit {
+                    return None;
+                }
+            }
+            return Some(v);
+        }
+        P_IO_COPY => {
+            let mut v = vec![];
+            return match std::io::copy(&mut r.take(limit as u64 + 1), &mut v) {
+                Ok(_) if v.len() <= limit => Some(v),
+                _ => None,
+            };
+        }
+        _ => {}
+    }
     let mut out = vec![];
     let mut buf = vec![0u8; bufsize.max(1)];
     let mut n_calls = 0u32;
@@ -301,6 +373,9 @@ fn judge(seed: &Seed, bytes: &[u8], what: &str, case: &dyn Fn() -> Value, bufs: 
         }
         for &b in bufs {
             for zero in [false, true] {
+                if zero && b >= P_IO_COPY {
+                    continue;
+                }
                 st.evals += 1;
                 // the content comparison for AE-2 entries applies to damage of the entry's data (salt, verifier, ciphertext,
                 // authentication code): that is what the authentication code covers. A lying size field makes the reader
@@ -324,7 +399,7 @@ fn judge(seed: &Seed, bytes: &[u8], what: &str, case: &dyn Fn() -> Value, bufs: 
                                 format!(
                                     "seed {} with {what}: entry {i} read to a clean EOF through the {route} reader (buffer {}, empty reads {zero}) but {}",
                                     seed.label,
-                                    if b == 0 { "read_to_end".to_string() } else { b.to_string() },
+                                    pattern_name(b),
                                     if ae2.get(i).copied().unwrap_or(false) { "the returned bytes differ from the entry's content although nothing reported the failed authentication (AE-2)" } else { "the CRC of the returned bytes differs from the declared one" }
                                 ),
                                 case(),
@@ -376,17 +451,17 @@ pub fn run(args: &Args) -> i32 {
     }
     let thorough = args.tier.thorough();
     let all = seeds(seed, false);
-    let bufs: Vec<usize> = vec![1, 2, 7, 4096, 0];
+    let bufs: Vec<usize> = vec![1, 2, 7, 4096, 0, P_READ_TO_STRING, P_PREFIX_THEN_READ_TO_END, P_BYTES, P_IO_COPY];
     ctx.rule = "E-PROD over damage to seed archives (two entries of 24 and ~60 bytes each, plus one seed of empty stored/deflated files and a directory; writer-made stored/deflate/bzip2/zstd and ZipCrypto, builder-made with data descriptors, AE-1, AE-2, and plain/AE-1/AE-2 deflate entries whose stream can end before the payload does (two blocks; spare bytes behind the final block)): \
         every one of the 255 other byte values at every offset of every entry's data region and of its CRC and size fields (central, and local for the streaming route) — in the quick tier the AES seeds get the 8 single-bit flips per byte instead; \
         every payload truncation length; payloads of the two entries swapped; each damaged archive is read entry by entry through the seekable and (where supported) the streaming reader with caller \
-        buffers {1, 2, 7, 4096, read_to_end} with and without interposed empty reads. Oracle: a read sequence that ends in a clean EOF returned bytes whose CRC-32 equals the declared one; for AE-2 entries (no CRC; covered by their authentication code) a clean EOF must have returned exactly the original bytes. \
+        buffers {1, 2, 7, 4096, read_to_end} with and without interposed empty reads, and through read_to_string, read_exact(1)+read_to_end into one vector, bytes() and io::copy (two seeds hold ASCII text so that read_to_string can succeed). Oracle: a read sequence that ends in a clean EOF returned bytes whose CRC-32 equals the declared one; for AE-2 entries (no CRC; covered by their authentication code) a clean EOF must have returned exactly the original bytes. \
         distinct_nontrivial = distinct damaged archives (counted by the enumerator; positions x values never repeat)."
         .into();
     ctx.assume("the harness CRC-32 is correct (self-tested against known vectors at start-up)");
     ctx.uncovered("random multi-byte damage (sampling); seeds larger than ~300 bytes");
     ctx.bound("seeds", json!(all.iter().map(|s| s.label.clone()).collect::<Vec<_>>()));
-    ctx.bound("caller_buffers", json!(bufs.iter().map(|b| if *b == 0 { "read_to_end".to_string() } else { b.to_string() }).collect::<Vec<_>>()));
+    ctx.bound("caller_buffers", json!(bufs.iter().map(|b| pattern_name(*b)).collect::<Vec<_>>()));
 
     // work items: (seed index, absolute position)
     let mut items: Vec<(usize, u64, &'static str)> = vec![];
